@@ -624,7 +624,7 @@ void ExpressionBuilder::expr_dot(const char* id)
     } else if (type.is(PROCESS_VAR)) {
         // the members of a process are the declarations of its template: look into the frame of the template
         // only, not through it into the global declarations
-        const auto templ_frame = dynamicFrames.find(expr.get_symbol().get_name());
+        const auto templ_frame = dynamicFrames.find(expr.get_symbol());
         if (templ_frame == dynamicFrames.end()) {
             throw UnknownIdentifierError(expr.get_symbol().get_name());
         }
@@ -1033,8 +1033,8 @@ void ExpressionBuilder::expr_forall_dynamic_end(const char* name)
     fragments.pop(2);
     fragments.push(expression_t::create_nary((mitl ? MITL_FORALL : FORALL_DYNAMIC), std::move(exprs), position,
                                              type_t::create_primitive(Constants::BOOL, position)));
+    pop_dynamic_frame_of(name);  // while the binder can still be resolved
     popFrame();
-    pop_dynamic_frame_of(name);
 }
 void ExpressionBuilder::expr_exists_dynamic_begin(const char* name, const char* temp)
 {
@@ -1064,8 +1064,8 @@ void ExpressionBuilder::expr_exists_dynamic_end(const char* name)
     fragments.pop(2);
     fragments.push(expression_t::create_nary((mitl ? MITL_EXISTS : EXISTS_DYNAMIC), std::move(exprs), position,
                                              type_t::create_primitive(Constants::BOOL, position)));
+    pop_dynamic_frame_of(name);  // while the binder can still be resolved
     popFrame();
-    pop_dynamic_frame_of(name);
 }
 
 void ExpressionBuilder::expr_sum_dynamic_begin(const char* name, const char* temp)
@@ -1088,8 +1088,8 @@ void ExpressionBuilder::expr_sum_dynamic_end(const char* name)
     auto exprs = vector<expression_t>{identifier, process, expr};
     fragments.pop(2);
     fragments.push(expression_t::create_nary(SUM_DYNAMIC, std::move(exprs), position, expr.get_type()));
+    pop_dynamic_frame_of(name);  // while the binder can still be resolved
     popFrame();
-    pop_dynamic_frame_of(name);
 }
 
 void ExpressionBuilder::expr_foreach_dynamic_begin(const char* name, const char* temp)
@@ -1112,8 +1112,8 @@ void ExpressionBuilder::expr_foreach_dynamic_end(const char* name)
     fragments.pop(2);
     fragments.push(expression_t::create_nary(FOREACH_DYNAMIC, std::move(exprs), position,
                                              type_t::create_primitive(Constants::INT, position)));
+    pop_dynamic_frame_of(name);  // while the binder can still be resolved
     popFrame();
-    pop_dynamic_frame_of(name);
 }
 
 void ExpressionBuilder::push_dynamic_frame_of(template_t* t, string name)
@@ -1121,7 +1121,14 @@ void ExpressionBuilder::push_dynamic_frame_of(template_t* t, string name)
     if (!t->is_defined) {
         throw TypeException("Template referenced before used");
     }
-    dynamicFrames[name] = t->frame;
+    // The frame is kept under the symbol of the binder, which has just been added to the innermost scope: an inner
+    // binder of the same name is a different symbol and leaves the entry of the outer one alone.
+    if (symbol_t binder; resolve(name, binder))
+        dynamicFrames[binder] = t->frame;
 }
 
-void ExpressionBuilder::pop_dynamic_frame_of(string name) { dynamicFrames.erase(name); }
+void ExpressionBuilder::pop_dynamic_frame_of(string name)
+{
+    if (symbol_t binder; resolve(name, binder))
+        dynamicFrames.erase(binder);
+}
